@@ -67,3 +67,10 @@ package floodgate
 //@   ensures [wrong-field-count-is-rejected] called(sp) && len(res(sp)) != 12 ==> result.1 != nil && result.0 == nil
 //@   ensures [bad-numbers-are-rejected] (called(xu) && (res(xu, 1) != nil || res(xu, 0) == 0)) || (called(dev) && res(dev, 1) != nil) || (called(ui) && res(ui, 1) != nil) || (called(im) && res(im, 1) != nil) ==> result.1 != nil && result.0 == nil
 //@   ensures [fields-in-floodgate-order] result.1 == nil ==> result.0 != nil && streq(result.0.Version, res(sp)[0]) && streq(result.0.Username, res(sp)[1]) && result.0.Xuid == res(xu, 0) && streq(result.0.Language, res(sp)[4]) && result.0.UIProfile == res(ui, 0) && result.0.InputMode == res(im, 0) && streq(result.0.IP, res(sp)[7]) && streq(result.0.LinkedPlayer, res(sp)[8]) && streq(result.0.SubscribeID, res(sp)[10]) && streq(result.0.VerifyCode, res(sp)[11])
+
+// Device lookup: the table entry that carries the id (every entry is reachable, also the last one); only an id no entry
+// carries yields the fallback.
+//@ func DeviceOSFromID
+//@   props C39
+//@   loop 1: invariant [no-earlier-entry-has-the-id] rangeindex >= -1 && rangeindex < len(DeviceOSes) && (forall k int :: 0 <= k && k <= rangeindex ==> DeviceOSes[k].ID != id)
+//@   ensures [the-entry-with-that-id-if-any] result.ID == id || (forall k int :: 0 <= k && k < len(DeviceOSes) ==> DeviceOSes[k].ID != id)
